@@ -6,7 +6,7 @@ CONSTANTS
   Shapes = {"", "H", "L", "C", "HC", "LC"}
   Mod = 1
   NCalls = 12
-  NProg = 120
+  NProg = 90
   Sample = TRUE
   Wide = TRUE
   Dump = TRUE
